@@ -130,7 +130,11 @@ func (n *ResponderInterceptor) BindLocalStream(
 
 			pkt, err := n.packetFactory.NewPacket(header, payload, info.SSRCRetransmission, info.PayloadTypeRetransmission)
 			if err != nil {
-				return 0, err
+				// The packet can not be kept for retransmission (larger than the factory's buffers, or its
+				// padding can not be stripped). It is still an application packet: pass it on unchanged.
+				n.log.Warnf("packet %d not buffered for retransmission: %+v", header.SequenceNumber, err)
+
+				return writer.Write(header, payload, attributes)
 			}
 
 			stream.rtpBufferMutex.Lock()
